@@ -3,6 +3,8 @@ use crate::{Scenario, Tier};
 pub mod c01;
 pub mod c09;
 pub mod c14;
+pub mod c15;
+pub mod c16;
 pub mod c17;
 pub mod c19;
 pub mod c20;
@@ -17,6 +19,8 @@ pub fn all(seed: u64) -> Vec<Scenario> {
     v.extend(c01::scenarios(seed));
     v.extend(c09::scenarios(seed));
     v.extend(c14::scenarios(seed));
+    v.extend(c15::scenarios(seed));
+    v.extend(c16::scenarios(seed));
     v.extend(c17::scenarios(seed));
     v.extend(c19::scenarios(seed));
     v.extend(c20::scenarios(seed));
